@@ -30,3 +30,43 @@ def open_enum_without_base(mm, ty, in_union=False):
     elif k == "tup":
         for x in ty[1]:
             yield from open_enum_without_base(mm, x)
+
+
+def base_protocol_shape(im):
+    """The two JSON-RPC base-protocol classes are not in the LSP metamodel; the generator emits them from hand-written
+    templates.  Their shape is the base protocol's (LSP specification, "Response Message" / "ResponseError"):
+    ResponseError {code: integer, message: string, data?: LSPAny}; the error response {id: integer|string|null,
+    error?: ResponseError, jsonrpc: "2.0"}.  -> [(construct, ok, message, lineno)]"""
+    from ..pymodel import NONE, mk_union, show
+    t = im.types
+    out = []
+    any_ty = t.final_ty("LSPAny") if "LSPAny" in t.env else ("prim", "any")
+    want = {
+        "ResponseError": {"code": (("prim", "int"), "integer", False), "message": (("prim", "str"), None, False),
+                          "data": (mk_union([any_ty, NONE]), None, True)},
+        "ResponseErrorMessage": {"id": (mk_union([("prim", "int"), ("prim", "str"), NONE]), None, True),
+                                 "error": (mk_union([("cls", "ResponseError"), NONE]), None, True),
+                                 "jsonrpc": (("prim", "str"), None, True)},
+    }
+    for cname, fields in want.items():
+        c = t.classes.get(cname)
+        if c is None or c.kind != "attrs":
+            out.append((f"class={cname}", False, f"{cname} is not a generated attrs class", None))
+            continue
+        got_names = [f.name for f in c.fields]
+        out.append((f"class={cname}:fields", sorted(got_names) == sorted(fields),
+                    f"{cname} has the attributes {got_names}; the base protocol defines {sorted(fields)}", c.lineno))
+        for fname, (ty, validator, has_default) in fields.items():
+            f = c.field(fname)
+            if f is None:
+                continue
+            resolved = t.resolve(f.resolved) if hasattr(t, "resolve") else f.resolved
+            out.append((f"{cname}.{fname}:type", resolved == t.resolve(ty),
+                        f"{cname}.{fname} is annotated {show(f.resolved)}; the base protocol says {show(ty)}", f.lineno))
+            if validator is not None:
+                out.append((f"{cname}.{fname}:validator", f.validator == validator,
+                            f"{cname}.{fname} carries the validator {f.validator!r}, expected {validator}", f.lineno))
+            out.append((f"{cname}.{fname}:default", bool(f.has_default) == has_default,
+                        f"{cname}.{fname} {'has' if f.has_default else 'has no'} default; expected {'one' if has_default else 'none'}",
+                        f.lineno))
+    return out
